@@ -100,6 +100,17 @@ def materialize(prog: dict[str, Any], root: str) -> None:
 # --------------------------------------------------------------------------- options (testcheck.run_case_once)
 
 
+def testfile_pyversion(file: str) -> tuple[int, int]:
+    """mypy.test.helpers.testfile_pyversion (not imported: that module needs pytest's plugin machinery)."""
+    from mypy import defaults
+
+    m = re.search(r"python3([0-9]+)\.test$", file)
+    if m:
+        return max((3, int(m.group(1))), defaults.PYTHON3_VERSION_MIN)
+    return defaults.PYTHON3_VERSION_MIN
+
+
+
 def make_options(prog: dict[str, Any], extra_flags: list[str]) -> Any:
     from mypy.main import process_options
     from mypy.options import Options
@@ -115,8 +126,7 @@ def make_options(prog: dict[str, Any], extra_flags: list[str]) -> Any:
         options.error_summary = False
     options.hide_error_codes = False  # C13 reads the codes (testcheck hides them unless asked)
     if all(f.split("=")[0] != "--python-version" for f in flag_list):
-        pv = corpus.pyversion_for(prog["file"])
-        options.python_version = pv if pv else sys.version_info[:2]
+        options.python_version = testfile_pyversion(prog["file"])
     options.use_builtins_fixtures = True
     options.show_traceback = True
     options.native_parser = False
@@ -164,11 +174,13 @@ def install_shim() -> None:
             # MessageBuilder passes a one-shot itertools.chain; keep it readable after mypy iterated it
             info.origin_span = list(info.origin_span)
         used = self.used_ignored_lines[f]
-        n_used = sum(len(v) for v in used.values())
+        before = {ln: len(v) for ln, v in used.items()}
         n_rep = len(self.error_info_map.get(f, ()))
         was_once_dup = bool(info.only_once and info.message in self.only_once_messages)
         orig_add(self, info, file=file)
-        if sum(len(v) for v in used.values()) > n_used:
+        claimed = [ln for ln, v in used.items() if len(v) > before.get(ln, 0)]
+        if claimed:
+            info._c13_claimed_by = claimed[0]
             _CAP["swallowed"].append((f, info))
         elif was_once_dup and len(self.error_info_map.get(f, ())) == n_rep:
             _CAP["once_dropped"].append((f, info))
@@ -249,9 +261,8 @@ def cli_status(prog: dict[str, Any], main_text: str, extra_flags: list[str]) -> 
     mb.build = build  # type: ignore[assignment]
     args = list(prog["flags"]) + list(extra_flags) + ["--no-site-packages", "--no-incremental", "--cache-dir", os.devnull]
     if all(f.split("=")[0] != "--python-version" for f in args):
-        pv = corpus.pyversion_for(prog["file"])
-        if pv:
-            args += ["--python-version", f"{pv[0]}.{pv[1]}"]
+        pv = testfile_pyversion(prog["file"])
+        args += ["--python-version", f"{pv[0]}.{pv[1]}"]
     args += ["--show-error-codes", "--no-error-summary", "tmp/main.py"]
     cwd = os.getcwd()
     sys.path.insert(0, PLUGIN_DIR)
@@ -268,5 +279,6 @@ def cli_status(prog: dict[str, Any], main_text: str, extra_flags: list[str]) -> 
     lines = r["stdout"].splitlines() + r["stderr"].splitlines()
     n_err = sum(1 for ln in lines if _ERR_LINE.search(ln))
     crashed = "Traceback (most recent call last)" in r["stderr"] or "INTERNAL ERROR" in r["stderr"]
-    return {"status": r["status"], "n_error_lines": n_err, "blocker": seen["compile_error"], "crashed": crashed,
+    usage = r["stderr"].startswith("usage: mypy")
+    return {"status": r["status"], "n_error_lines": n_err, "blocker": seen["compile_error"], "crashed": crashed, "usage_error": usage,
             "lines": lines, "args": args}
